@@ -279,7 +279,6 @@ TIMER = "src/time/timer.rs"
 PREC_SPEC = r"""
 use core::cmp::Ordering;
 // ===== stand-ins =====
-#[verifier::external_body] #[derive(Clone, Copy)] pub struct Timer { _p: core::marker::PhantomData<()> }
 #[verifier::external_body] #[derive(Clone, Copy)] pub struct TimerKind { _p: core::marker::PhantomData<()> }
 impl Timer { #[verifier::external_body] pub fn kind(self) -> (r: TimerKind) { unimplemented!() } }
 impl FineDuration {
@@ -292,8 +291,12 @@ impl FineDuration {
 }
 // one clock sample: two reads in immediate succession, or `delay_len` spins apart (pinned fragment: the untagged
 // timestamps, the delay loop, the unsafe into_timestamp and the duration_since call); its value is whatever the clock says
+// `clock_gave(t, v)`: v is the length of a sample the clock of timer t really produced during this call
+pub uninterp spec fn clock_gave(timer: Timer, v: u128) -> bool;
 #[verifier::external_body]
-pub fn take_sample(timer: Timer, timer_kind: TimerKind, delay_len: usize) -> (r: FineDuration) { unimplemented!() }
+pub fn take_sample(timer: Timer, timer_kind: TimerKind, delay_len: usize) -> (r: FineDuration)
+    ensures clock_gave(timer, r.picos),
+{ unimplemented!() }
 
 // the least non-zero sample among the first n observed
 pub open spec fn least_nonzero(obs: Seq<u128>, n: int) -> u128
@@ -357,6 +360,16 @@ PIN_SAMPLE = """let sample_start: UntaggedTimestamp;
                 let sample = sample_end.duration_since(sample_start, self);"""
 
 
+DS_HINT = (r"FineDuration \{ picos : \( diff as u128 \* PICOS \)", "before", """
+                    proof {
+                        assert(0 <= (diff as int) * 1_000_000_000_000 <= 0xffff_ffff_ffff_ffff * 1_000_000_000_000) by (nonlinear_arith)
+                            requires 0 <= diff as int <= 0xffff_ffff_ffff_ffff;
+                    }
+                """, 1, "hint")
+DS_CLAUSES = """
+            ensures r.picos as int == elapsed(earlier.value as int, self.value as int, frequency.get() as int),
+"""
+
 def precision_file(S: Sources):
     """Timer::measure_precision: whatever the clock does, the value returned is the LEAST non-zero sample observed during the
     call and was itself observed (zero samples are discarded) - so for a clock advancing in uniform steps it is a positive
@@ -365,11 +378,26 @@ def precision_file(S: Sources):
     from units.loop_common import pin
     import re
     tm = S(TIMER); fd = S(FD)
-    secs = [code_item(fd, fd.find_item("struct", "FineDuration"), keep_attrs=("derive",),
+    tsc = S(TSC)
+    secs = [ghost("imports", "use core::num::NonZeroU64;", kind="glue"),
+            code_item(fd, fd.find_item("struct", "FineDuration"), keep_attrs=("derive",),
+                      subst=[(r"#\[derive\([^\]]*\)\]", "#[derive(Clone, Copy, Default, PartialEq, Eq)]", 1)]),
+            # the real Timer enum (its `kind()` stays a stand-in) and the TSC conversion, so that a measure_precision that
+            # looks at the variant or converts ticks itself is still within reach
+            code_item(tm, tm.find_item("enum", "Timer"), keep_attrs=("derive",),
                       subst=[(r"#\[derive\([^\]]*\)\]", "#[derive(Clone, Copy)]", 1)]),
+            code_item(tsc, tsc.find_item("struct", "TscTimestamp"), keep_attrs=("derive",),
+                      subst=[(r"#\[derive\([^\]]*\)\]", "#[derive(Clone, Copy, PartialEq, Eq)]", 1)]),
+            ghost("C11 spec", SPEC), ghost("trusted derived Default", TRUSTED, kind="trusted"),
             ghost("precision spec and stand-ins", PREC_SPEC, kind="trusted")]
+    f_ds = tsc.find_fn("duration_since", impl=r"impl TscTimestamp\b")
+    secs += wrap_impl("impl TscTimestamp", [
+        code_fn(tsc, f_ds, "TscTimestamp::duration_since", ret="r", inserts=[DS_HINT], clauses=DS_CLAUSES)])
+    f_clamp = fd.find_fn("clamp_to", impl=r"impl FineDuration\b")
+    secs += wrap_impl("impl FineDuration", [
+        code_fn(fd, f_clamp, "FineDuration::clamp_to", ret="r", clauses="ensures r == (if self.picos == 0 { other } else { self }),")])
     f = tm.find_fn("measure_precision", impl=r"impl Timer\b")
-    INV = "0 <= seen_count < 100, min_sample.picos == least_nonzero(obs, obs.len() as int),"
+    INV = "0 <= seen_count < 100, min_sample.picos == least_nonzero(obs, obs.len() as int), forall|i: int| 0 <= i < obs.len() ==> clock_gave(self, #[trigger] obs[i]),"
     subst = [
         (pin(re.sub(r"//[^\n]*", "", PIN_SAMPLE)), "let sample = take_sample(self, timer_kind, delay_len); proof { lemma_push(obs, sample.picos); obs = obs.push(sample.picos); }", 1),
         (pin("FineDuration::MAX"), "FineDuration::max_value()", 1),
@@ -384,6 +412,7 @@ def precision_file(S: Sources):
             ensures
                 // the least non-zero sample the clock produced during the call, and one that was really observed
                 exists|obs: Seq<u128>| r.picos == least_nonzero(obs, obs.len() as int)
+                    && (forall|i: int| 0 <= i < obs.len() ==> clock_gave(self, #[trigger] obs[i]))
                     && (exists|i: int| 0 <= i < obs.len() && #[trigger] obs[i] == r.picos && obs[i] != 0)
                     && (forall|i: int| 0 <= i < obs.len() && #[trigger] obs[i] != 0 ==> r.picos <= obs[i]),
         """)
@@ -408,15 +437,7 @@ def verus_files(S: Sources):
     f_ds = tsc.find_fn("duration_since", impl=r"impl TscTimestamp\b")
     secs += wrap_impl("impl TscTimestamp", [
         code_fn(tsc, f_ds, "TscTimestamp::duration_since", ret="r", pair=["verif_c11::tsc_duration_since", "verif_c11::tsc_duration_since_small", "verif_c11::tsc_tiny_base0", "verif_c11::tsc_tiny_base40"],
-                inserts=[(r"FineDuration \{ picos : \( diff as u128 \* PICOS \)", "before", """
-                    proof {
-                        assert(0 <= (diff as int) * 1_000_000_000_000 <= 0xffff_ffff_ffff_ffff * 1_000_000_000_000) by (nonlinear_arith)
-                            requires 0 <= diff as int <= 0xffff_ffff_ffff_ffff;
-                    }
-                """, 1, "hint")],
-                clauses="""
-            ensures r.picos as int == elapsed(earlier.value as int, self.value as int, frequency.get() as int),
-        """)])
+                inserts=[DS_HINT], clauses=DS_CLAUSES)])
     # fine_duration helpers used when a sample is stored (C05 reuses them)
     secs.append(ghost("C11 lemmas", LEMMAS, kind="lemma"))
 
